@@ -18,3 +18,114 @@ package fields
 //@ func MustWriteTombstone
 //@   property C08 C17
 //@   trusted
+
+func forall(lo, hi int, f func(int) bool) bool {
+	for i := lo; i < hi; i++ {
+		if !f(i) {
+			return false
+		}
+	}
+	return true
+}
+
+// ---- byte level of the on-disk formats (C17). A writer is the byte string it
+// has received so far (ghost field stream); a reader is a byte string and a
+// position (ghost fields data, pos). Every write*/Read*/Skip* pair is proved to
+// be inverse on these strings; integers are little endian.
+//@ type ext:io.Writer
+//@   ghostfield stream []byte
+//@ type ext:io.Reader
+//@   ghostfield data []byte
+//@   ghostfield pos int
+
+//@ define appended(w, n) := len(w.stream) == old(len(w.stream)) + n && forall(0, old(len(w.stream)), func(ii_ int) bool { return w.stream[ii_] == old(w.stream)[ii_] })
+
+//@ func ext:io.Writer.Write
+//@   trusted
+//@   modifies self.stream
+//@   ensures result1 == nil ==> result0 == len(arg0) && appended(self, len(arg0)) &&
+//@           forall(0, len(arg0), func(i int) bool { return self.stream[old(len(self.stream))+i] == arg0[i] })
+//@   ensures 0 <= result0 && result0 <= len(arg0)
+
+//@ func writeUint64
+//@   property C17
+//@   modifies w.stream
+//@   ensures result1 == nil ==> result0 == 8 && appended(w, 8)
+//@   ensures result1 == nil ==> uint64(w.stream[old(len(w.stream))]) == v%256 && uint64(w.stream[old(len(w.stream))+1]) == (v/256)%256 &&
+//@           uint64(w.stream[old(len(w.stream))+2]) == (v/65536)%256 && uint64(w.stream[old(len(w.stream))+3]) == (v/16777216)%256 &&
+//@           uint64(w.stream[old(len(w.stream))+4]) == (v/4294967296)%256 && uint64(w.stream[old(len(w.stream))+5]) == (v/1099511627776)%256 &&
+//@           uint64(w.stream[old(len(w.stream))+6]) == (v/281474976710656)%256 && uint64(w.stream[old(len(w.stream))+7]) == (v/72057594037927936)%256
+
+//@ func ReadUint64
+//@   property C17
+//@   modifies r.pos
+//@   ensures (result1 == nil) == (len(r.data)-old(r.pos) >= 8)
+//@   ensures result1 == nil ==> r.pos == old(r.pos)+8 &&
+//@           result0 == uint64(r.data[old(r.pos)]) + uint64(r.data[old(r.pos)+1])*256 + uint64(r.data[old(r.pos)+2])*65536 + uint64(r.data[old(r.pos)+3])*16777216 +
+//@                      uint64(r.data[old(r.pos)+4])*4294967296 + uint64(r.data[old(r.pos)+5])*1099511627776 + uint64(r.data[old(r.pos)+6])*281474976710656 + uint64(r.data[old(r.pos)+7])*72057594037927936
+
+//@ func SkipUint64
+//@   property C17
+//@   modifies r.pos
+//@   ensures (result == nil) == (len(r.data)-old(r.pos) >= 8)
+//@   ensures result == nil ==> r.pos == old(r.pos)+8
+
+//@ func writeUint32
+//@   property C17
+//@   modifies w.stream
+//@   ensures result1 == nil ==> result0 == 4 && appended(w, 4)
+//@   ensures result1 == nil ==> uint32(w.stream[old(len(w.stream))]) == v%256 && uint32(w.stream[old(len(w.stream))+1]) == (v/256)%256 &&
+//@           uint32(w.stream[old(len(w.stream))+2]) == (v/65536)%256 && uint32(w.stream[old(len(w.stream))+3]) == (v/16777216)%256
+
+//@ func ReadUint32
+//@   property C17
+//@   modifies r.pos
+//@   ensures (result1 == nil) == (len(r.data)-old(r.pos) >= 4)
+//@   ensures result1 == nil ==> r.pos == old(r.pos)+4 &&
+//@           result0 == uint32(r.data[old(r.pos)]) + uint32(r.data[old(r.pos)+1])*256 + uint32(r.data[old(r.pos)+2])*65536 + uint32(r.data[old(r.pos)+3])*16777216
+
+//@ func writeTombstone
+//@   property C17
+//@   modifies w.stream
+//@   ensures result1 == nil ==> result0 == 1 && appended(w, 1) && (w.stream[old(len(w.stream))] == 1) == deleted && (w.stream[old(len(w.stream))] == 0) == !deleted
+
+//@ func ReadTombstone
+//@   property C17
+//@   modifies r.pos
+//@   ensures (result1 == nil) == (len(r.data)-old(r.pos) >= 1)
+//@   ensures result1 == nil ==> r.pos == old(r.pos)+1 && result0 == (r.data[old(r.pos)] == 1)
+
+//@ func writeVarBytes
+//@   property C17
+//@   requires len(data) < 4294967296
+//@   modifies w.stream
+//@   ensures result1 == nil ==> result0 == 4+len(data) && appended(w, 4+len(data))
+//@   ensures result1 == nil ==> int(w.stream[old(len(w.stream))]) + int(w.stream[old(len(w.stream))+1])*256 + int(w.stream[old(len(w.stream))+2])*65536 + int(w.stream[old(len(w.stream))+3])*16777216 == len(data)
+//@   ensures result1 == nil ==> forall(0, len(data), func(i int) bool { return w.stream[old(len(w.stream))+4+i] == data[i] })
+
+//@ func ReadVarBytes
+//@   property C17
+//@   modifies r.pos
+//@   ensures result1 == nil ==> len(r.data)-old(r.pos) >= 4 &&
+//@           len(result0) == int(r.data[old(r.pos)]) + int(r.data[old(r.pos)+1])*256 + int(r.data[old(r.pos)+2])*65536 + int(r.data[old(r.pos)+3])*16777216 &&
+//@           r.pos == old(r.pos)+4+len(result0) && r.pos <= len(r.data) &&
+//@           forall(0, len(result0), func(i int) bool { return result0[i] == r.data[old(r.pos)+4+i] })
+//@   ensures (len(r.data)-old(r.pos) >= 4 && len(r.data)-old(r.pos)-4 >= int(r.data[old(r.pos)]) + int(r.data[old(r.pos)+1])*256 + int(r.data[old(r.pos)+2])*65536 + int(r.data[old(r.pos)+3])*16777216) ==> result1 == nil
+
+//@ func SkipVarBytes
+//@   property C17
+//@   modifies r.pos
+//@   ensures result == nil ==> len(r.data)-old(r.pos) >= 4 &&
+//@           r.pos == old(r.pos)+4 + int(r.data[old(r.pos)]) + int(r.data[old(r.pos)+1])*256 + int(r.data[old(r.pos)+2])*65536 + int(r.data[old(r.pos)+3])*16777216 && r.pos <= len(r.data)
+
+// decode(encode(v)) == v: the little-endian byte split is lossless.
+//@ lemma leRoundTrip64
+//@   property C17
+//@   mode bv
+//@   forall v uint64
+//@   ensures v%256 + ((v/256)%256)*256 + ((v/65536)%256)*65536 + ((v/16777216)%256)*16777216 + ((v/4294967296)%256)*4294967296 +
+//@           ((v/1099511627776)%256)*1099511627776 + ((v/281474976710656)%256)*281474976710656 + ((v/72057594037927936)%256)*72057594037927936 == v
+//@ lemma leRoundTrip32
+//@   property C17
+//@   forall v uint32
+//@   ensures v%256 + ((v/256)%256)*256 + ((v/65536)%256)*65536 + ((v/16777216)%256)*16777216 == v
